@@ -1,7 +1,7 @@
 (* C03 - basis functions and knot-span search satisfy their defining identities.
    This file only states the property theorems; proofs live under Proofs/ and Transfer/. *)
 From Coq Require Import List QArith Reals Qreals Lia Arith Bool.
-From NV Require Import Scalar.Ops Model.Common Model.Basis Model.Knots Proofs.Boehm Proofs.BasisR Proofs.KnotsR Proofs.EvalR Proofs.BinSearchR Proofs.DersSum5 Proofs.DersSum6 Proofs.GenerateR Proofs.BasisPos Transfer.BasisT.
+From NV Require Import Scalar.Ops Model.Common Model.Basis Model.Knots Proofs.Boehm Proofs.BasisR Proofs.KnotsR Proofs.EvalR Proofs.BinSearchR Proofs.DersSum5 Proofs.DersSum6 Proofs.GenerateR Proofs.BasisPos Proofs.BasisOneR Proofs.DerivAnalytic Proofs.DerivLink Transfer.BasisT.
 Import ListNotations.
 
 (* [G] all degrees, all sorted knot vectors with any multiplicities, all parameters in a non-empty span *)
@@ -123,6 +123,46 @@ Theorem C03_find_multiplicity_spec : forall (tol u : R) (U : list R),
   find_multiplicity Rops tol u U = length (filter (fun k => Rleb (oabs Rops (u - k)%R) tol) U).
 Proof. reflexivity. Qed.
 Print Assumptions C03_find_multiplicity_spec.
+
+(* [G] all degrees: the single-function variant A2.4 (helpers.basis_function_one) equals the Cox-de Boor recursion, for every
+   function index and every parameter except the two documented end special cases (which return 1) *)
+Theorem C03_basis_function_one_is_cox_de_boor : forall (U : list R) (i : nat) (u : R) (p : nat),
+  sortedR U -> (i + p + 1 < length U)%nat -> ~ (i = 0%nat /\ u = knR U 0) ->
+  ~ ((i + p + 2)%nat = length U /\ u = knR U (length U - 1)) ->
+  basis_function_one Rops p U i u = N (Ufun U) p i u.
+Proof. exact bf_one_is_cox_de_boor. Qed.
+Print Assumptions C03_basis_function_one_is_cox_de_boor.
+
+(* the closed right end: the code returns 1 for the last function at the last knot where the half-open recursion gives 0 *)
+Theorem C03_basis_function_one_end_convention : forall (U : list R) (p i : nat),
+  sortedR U -> (i + p + 2)%nat = length U ->
+  basis_function_one Rops p U i (knR U (length U - 1)) = 1%R /\ N (Ufun U) p i (knR U (length U - 1)) = 0%R.
+Proof. exact bf_one_end_convention. Qed.
+Print Assumptions C03_basis_function_one_end_convention.
+
+(* [G] all degrees: every entry k <= min(order, p) of the single-function derivative algorithm A2.5 is the Eq. 2.9 derivative,
+   for every parameter *)
+Theorem C03_ders_one_is_eq29 : forall (U : list R) (i : nat) (u : R) (p order k : nat),
+  sortedR U -> (i + p + 1 < length U)%nat -> (k <= order)%nat -> (k <= p)%nat ->
+  nth k (basis_function_ders_one Rops p U i u order) 0%R = BasisOneR.dN (Ufun U) k p i u.
+Proof. exact ders_one_is_dN. Qed.
+Print Assumptions C03_ders_one_is_eq29.
+
+(* [B: degrees 1..5, all knot vectors / spans / parameters] A2.3 rows are the Eq. 2.9 derivatives, hence agree with A2.5 *)
+Theorem C03_ders_is_eq29_deg_le_5 : forall (U : list R) (p span : nat) (u : R),
+  sortedR U -> (1 <= p <= 5)%nat -> (p <= span)%nat -> (span + p < length U)%nat -> (span + 1 < length U)%nat ->
+  (knR U span <= u < knR U (span + 1))%R -> forall k r : nat, (k <= p)%nat -> (r <= p)%nat ->
+  nth r (nth k (basis_function_ders Rops p U span u p) nil) 0%R = DerivAnalytic.dN (Ufun U) k p (span - p + r) u.
+Proof. exact ders_is_dN_deg_le_5. Qed.
+Print Assumptions C03_ders_is_eq29_deg_le_5.
+
+Theorem C03_ders_agrees_with_ders_one_deg_le_5 : forall (U : list R) (p span : nat) (u : R),
+  sortedR U -> (1 <= p <= 5)%nat -> (p <= span)%nat -> (span + p + 1 < length U)%nat ->
+  (knR U span <= u < knR U (span + 1))%R -> forall k r : nat, (k <= p)%nat -> (r <= p)%nat ->
+  nth r (nth k (basis_function_ders Rops p U span u p) nil) 0%R =
+  nth k (basis_function_ders_one Rops p U (span - p + r) u p) 0%R.
+Proof. exact ders_agrees_with_ders_one_deg_le_5. Qed.
+Print Assumptions C03_ders_agrees_with_ders_one_deg_le_5.
 
 (* non-vacuity: a concrete cubic knot vector with a double interior knot meets the hypotheses *)
 Example C03_hypotheses_satisfiable :
